@@ -148,7 +148,7 @@ def lean_lemmas():
         st = "ok" if p.returncode == 0 and "error" not in out else "failed"
     except Exception as e:  # noqa: BLE001
         out, st = str(e), "failed"
-    c = {"sha": sha, "status": st, "seconds": round(time.time() - t0, 1), "output": out[-800:], "at": time.time(), "theorems": ["LS_prefix", "LS_lin_eq", "LS_lin_mod", "LS_store", "LS_mono", "LS_floor"]}
+    c = {"sha": sha, "status": st, "seconds": round(time.time() - t0, 1), "output": out[-800:], "at": time.time(), "theorems": ["LS_prefix", "LS_lin_eq", "LS_lin_mod", "LS_store", "LS_mono", "LS_floor", "LS_cum_mono", "LB_boundary", "LB_count"]}
     os.makedirs(EVID, exist_ok=True)
     json.dump(c, open(cache, "w"))
     return c
@@ -421,8 +421,9 @@ def proof_tier_only():
     from pyvc.run import run_modules
 
     baseline = json.load(open(BASELINE)) if os.path.exists(BASELINE) else {}
+    known = load_known()
     recs = run_modules(PYVC_MODULES, jobs=12) + frames.run(list(frames.CHECKS), "-")
-    alarms, undecided, n = [], [], 0
+    alarms, undecided, n, n_known = [], [], 0, 0
     for r in recs:
         if r["status"] in ("undecided", "crash"):
             undecided.append(f"{r['task']}: {r.get('reason', '')[-200:]}")
@@ -430,12 +431,15 @@ def proof_tier_only():
             n += 1
             if o["status"] == "proved":
                 continue
+            if any(match_known(known, p, {"obligation": o["name"], "features": {"tier": "P"}}) for p in r.get("props", [])):
+                n_known += 1  # an obligation that isolates a known finding
+                continue
             was = baseline.get(r["task"], {}).get(o["name"]) == "proved"
             if o["status"] == "refuted" or was:
                 alarms.append(f"{o['status']:8s} {r['task']} :: {o['name']} (line {o.get('lineno')})")
             else:
                 undecided.append(f"{o['name']}: {o['status']}")
-    print(json.dumps({"obligations": n, "alarms": alarms[:60], "n_alarms": len(alarms), "undecided": undecided[:30], "n_undecided": len(undecided)}, indent=1))
+    print(json.dumps({"obligations": n, "known_finding_obligations": n_known, "alarms": alarms[:60], "n_alarms": len(alarms), "undecided": undecided[:30], "n_undecided": len(undecided)}, indent=1))
     return 1 if alarms else 0
 
 
